@@ -4,6 +4,8 @@ mod kdev;
 mod relgen;
 mod props;
 mod strings;
+mod typed;
+mod typed_tables;
 
 use crate::core::*;
 
@@ -70,6 +72,7 @@ fn main() {
         "C08" => dispatch(props::c08::C08(Default::default()), &cfg, &replay),
         "C09" => dispatch(props::c09::C09, &cfg, &replay),
         "C10" => dispatch(props::c10::RelProp(props::c10::RWhich::C10), &cfg, &replay),
+        "C16" => dispatch(props::c16::C16, &cfg, &replay),
         "C17" => dispatch(props::c17::C17, &cfg, &replay),
         "C18" => dispatch(props::c18::C18, &cfg, &replay),
         "C19" => dispatch(props::c19::C19, &cfg, &replay),
